@@ -63,6 +63,11 @@ TEMPLATES = [
     ("whole-path-in-backticks", "insert into `{wb}.Mid` select x from src; insert into fin select x from {r}.`Mid`", "mid-table"),
     ("whole-path-in-backticks-3", "insert into `{wb}.Sch.Mid` select x from src; insert into fin select x from {r}.`Sch`.`Mid`", "mid-table"),
     ("whole-path-in-backticks-read", "insert into {r}.`Mid` select x from src; insert into fin select x from `{wb}.Mid`", "mid-table"),
+    # a column defined by an earlier statement under spelling w comes back under the same normalised name when the table is read with * (provider in use)
+    ("created-col->star-read", "create table mid as select x as {w} from src; insert into fin select * from mid", "session-col"),
+    # the configured default schema is an identifier like any other: bare `mid` under DEFAULT_SCHEMA=w is the table that `r.mid` names iff N(w) == N(r)
+    ("default-schema->qualified-read", "insert into mid select x from src; insert into fin select x from {r}.mid", "default-schema"),
+    ("qualified-write->default-schema", "insert into {r}.mid select x from src; insert into fin select x from mid", "default-schema"),
     ("created-table->star-read", "create table {w} as select x as col_w from src; create table {r} as select x as col_r from src; insert into fin select * from {w}", "session"),
 ]
 
@@ -90,6 +95,10 @@ def judge(kind, w, r, o):
         return src == ["<default>.src"], None
     if kind == "rename":
         return tgt == ["<default>.fin2"], None
+    if kind == "session-col":
+        return ("<default>.src.x", f"<default>.fin.{nw}") in pairs, None
+    if kind == "default-schema":
+        return len(mid) == 1, None
     if kind == "session":
         cols = {t.rsplit(".", 1)[1] for s_, t in pairs if t.startswith("<default>.fin.")}
         # same entity: the second CREATE redefines it (anything goes); different entities: * expands to col_w only
@@ -120,11 +129,21 @@ def _eval(task):
     dialect, pos, tpl, kind, w, r = task
     sql = tpl.format(w=w, r=r, wb=w.strip("`"))
     prov = None
-    if kind == "session":
+    if kind in ("session", "session-col"):
         from sqllineage.core.metadata.dummy import DummyMetaDataProvider
 
         prov = DummyMetaDataProvider({"main.unrelated": ["id"]})
-    o = observe.observe(sql, dialect, provider=prov, level="columns")
+    if kind == "session-col" and w != r:
+        return {"skip": True}  # r does not occur in this template
+    if kind == "default-schema":
+        if quoted(w):
+            return {"skip": True}  # the configured value is a bare string
+        from sqllineage.config import SQLLineageConfig
+
+        with SQLLineageConfig(DEFAULT_SCHEMA=w):
+            o = observe.observe(sql, dialect, provider=prov, level="columns")
+    else:
+        o = observe.observe(sql, dialect, provider=prov, level="columns")
     if "exception" in o:
         if o["exception"] == "InvalidSyntaxException" and not observe.sqlfluff_accepts(sql.split(";")[0], dialect):
             return {"skip": True}
